@@ -256,7 +256,6 @@ Canon(T, v) ==
   ELSE IF v.k = "list" THEN [k |-> "list", es |-> [i \in 1 .. Len(v.es) |-> Canon(T.e, v.es[i])]]
   ELSE IF v.k = "map" THEN [k |-> "mapset", n |-> Len(v.ps), s |-> {<<Canon(T.kt, v.ps[i].key), Canon(T.vt, v.ps[i].val)>> : i \in 1 .. Len(v.ps)}]
   ELSE IF v.k = "tuple" THEN [k |-> "tuple", es |-> [i \in 1 .. Len(v.es) |-> IF i <= Len(T.es) THEN Canon(T.es[i], v.es[i]) ELSE v.es[i]]]
-  ELSE IF v.k = "bytes" /\ T.t = "inet" THEN VBytes(NormIP(v.b))
   ELSE v
 
 \* the same for a value decoded into a target of kind K (a partial struct lists UDT fields in its own order)
@@ -282,6 +281,12 @@ CanonK(T, K, v) ==
 \* value is the instant (ms since the epoch), so everything below treats them like "time": the column value
 \* depends on the instant only (date = UTC day of the instant).  They are sources only (decodes come back in UTC).
 ZoneTimeKinds == {"time_p9", "time_m5"}
+\* Go kinds "um_v" / "um_p": user-defined types that implement gocql.Marshaler / Unmarshaler themselves (the harness's
+\* ones hold an int32 and write / read the 4-byte CQL int): "um_v" has a value-receiver MarshalCQL, "um_p" a pointer-
+\* receiver one; both have a pointer-receiver UnmarshalCQL.  "If value implements Marshaler, its MarshalCQL method is
+\* called"; "nil is serialized as CQL null" - a nil *T is null whatever methods *T has.  A bare um_p value does not
+\* implement Marshaler (only its pointer does): not a documented source.
+UserKinds == {"um_v", "um_p"}
 IntKinds == {"int", "int8", "int16", "int32", "int64", "uint", "uint8", "uint16", "uint32", "uint64"}
 NamedIntKinds == {"nint", "nint8", "nint16", "nint32", "nint64", "nuint", "nuint8", "nuint16", "nuint32", "nuint64"}
 AllIntKinds == IntKinds \cup NamedIntKinds
@@ -289,14 +294,15 @@ KindSigned(g) == g \in {"int", "int8", "int16", "int32", "int64", "nint", "nint8
 KindBits(g) == CASE g \in {"int8", "uint8", "nint8", "nuint8"} -> 8 [] g \in {"int16", "uint16", "nint16", "nuint16"} -> 16
                  [] g \in {"int32", "uint32", "nint32", "nuint32"} -> 32 [] OTHER -> 64     \* int, uint: 64-bit platform
 \* can a Go value of kind g hold the integer x
-FitsKind(g, x) == IF g \in AllIntKinds THEN (IF KindSigned(g) THEN FitsS(x, KindBits(g)) ELSE FitsU(x, KindBits(g)))
+FitsKind(g, x) == IF g \in UserKinds THEN FitsS(x, 32) ELSE IF g \in AllIntKinds THEN (IF KindSigned(g) THEN FitsS(x, KindBits(g)) ELSE FitsU(x, KindBits(g)))
                   ELSE g \in {"bigint", "string"}
 
 \* Marshal doc comment (marshal.go:74-112): CQL type | Go type
 Supported(t, g) ==
   CASE t \in TextTypes -> g \in {"string", "bytes"}
     [] t = "boolean" -> g = "bool"
-    [] t \in {"tinyint", "smallint", "int"} -> g \in AllIntKinds \cup {"string"}
+    [] t = "int" -> g \in AllIntKinds \cup {"string", "um_v"}
+    [] t \in {"tinyint", "smallint"} -> g \in AllIntKinds \cup {"string"}
     [] t \in {"bigint", "counter", "varint"} -> g \in AllIntKinds \cup {"bigint", "string"}
     [] t = "float" -> g = "float32"
     [] t = "double" -> g = "float64"
@@ -313,7 +319,7 @@ Supported(t, g) ==
 Target(t, g) ==
   CASE t \in TextTypes -> g \in {"string", "bytes"}
     [] t = "boolean" -> g = "bool"
-    [] t \in FixedIntTypes \cup {"varint"} -> g \in AllIntKinds \cup {"bigint", "string"}
+    [] t \in FixedIntTypes \cup {"varint"} -> g \in AllIntKinds \cup {"bigint", "string"} \/ (t = "int" /\ g \in UserKinds)
     [] t = "float" -> g = "float32"
     [] t = "double" -> g = "float64"
     [] t = "decimal" -> g = "dec"
@@ -339,7 +345,7 @@ RECURSIVE Claimed(_, _)
 Claimed(T, K) ==
   LET t == T.t g == K.g IN
   IF g = "nil" THEN TRUE
-  ELSE IF g = "ptr" THEN Claimed(T, K.e)
+  ELSE IF g = "ptr" THEN (t = "int" /\ K.e.g = "um_p") \/ Claimed(T, K.e)       \* *T implements Marshaler through its pointer receiver
   ELSE IF t \in {"list", "set"} THEN g \in {"slice", "array", "setmap"} /\ Claimed(T.e, K.e)
   ELSE IF t = "map" THEN g = "map" /\ Claimed(T.kt, K.kk) /\ Claimed(T.vt, K.vk)
   ELSE IF t \in {"tuple", "udt"} THEN
@@ -382,7 +388,11 @@ SrcAlts(T, K, gv) ==
              IF FitsS(d, 32) THEN VInt(d) ELSE VErr}
   ELSE IF t \in {"time", "timestamp"} THEN {IF gv.k = "empty" \/ FitsS(BigOf(gv), 64) THEN gv ELSE VErr}
   ELSE IF t = "duration" THEN {IF g = "cdur" THEN gv ELSE VDur(BZero, BZero, BigOf(gv))}
-  ELSE IF t = "inet" THEN (IF gv.k = "bytes" /\ IsMappedIP(gv.b) THEN {gv, VBytes(NormIP(gv.b))} ELSE {gv})
+  \* An IPv4 address is serialized as 4 bytes.  Go's net.IP holds an IPv4 address in 4 or in 16 bytes (net.ParseIP and
+  \* net.IPv4 give ::ffff:a.b.c.d in 16 bytes, To4() gives 4): both in-memory forms, and the strings that denote them, are
+  \* the same address (Java's InetAddress likewise makes an Inet4Address of a mapped address), so the column value is the
+  \* 4-byte form.
+  ELSE IF t = "inet" THEN {IF gv.k = "bytes" THEN VBytes(NormIP(gv.b)) ELSE gv}
   ELSE IF t \in UuidTypes THEN {IF gv.k = "bytes" /\ Len(gv.b) = 16 THEN gv ELSE VErr}
   ELSE {gv}
 \* the canonical column value (first alternative in the sense of: no permutation, address as given)
@@ -400,7 +410,7 @@ Src(T, K, gv) ==
        IF Len(gv.es) # Len(T.es) THEN VErr ELSE
        LET es == [i \in 1 .. Len(gv.es) |-> Src(T.es[i], IF g \in {"slice", "array"} THEN K.e ELSE K.es[i], gv.es[i])] IN
        IF SeqAny(es, IsErr) THEN VErr ELSE VTuple(es)
-  ELSE CHOOSE v \in SrcAlts(T, K, gv) : (T.t = "inet" => v = gv)
+  ELSE CHOOSE v \in SrcAlts(T, K, gv) : TRUE
 
 \* Rulings (DESIGN section 9): documented pairs on which an error is an accepted outcome
 Refusable(t, g, gv) ==
@@ -422,7 +432,7 @@ AnyRefusable(T, K, gv) ==
 \* as zero value"); VErr = no claim
 ZeroOf(T, K) ==
   LET t == T.t g == K.g IN
-  CASE g \in AllIntKinds \cup {"bigint", "int64", "gdur"} /\ t \in FixedIntTypes \cup {"varint", "time", "timestamp"} -> VI(0)
+  CASE g \in AllIntKinds \cup UserKinds \cup {"bigint", "int64", "gdur"} /\ t \in FixedIntTypes \cup {"varint", "time", "timestamp"} -> VI(0)
     [] g \in {"string", "bytes"} /\ t \in TextTypes -> VBytes(<<>>)
     [] g = "string" /\ t = "date" -> VEmpty
     [] g = "bool" -> VBool(FALSE)
